@@ -20,9 +20,8 @@ def run(ck):
         else:
             ck.violation("R1.whole-needs-reason", "R1|writeReplyBody|whole-without-reason", s.where(), "the virgin reply can be marked whole without parsedWhole being set (%s)" % s.env.get("parsedWhole"))
     exp = E.m_calls("Http::Message::expectingBody") | E.m_calls("HttpReply::expectingBody")
-    got_all = E.M(lambda t: E.strip(t).get("k") == "bin" and E.strip(t).get("op") == "==" and E.m_is_ref("clen")(E.strip(t)["l"]) and
-                  E.strip(E.strip(t)["r"]).get("op") == "-" and E.m_is_mem("payloadSeen")(E.strip(E.strip(t)["r"])["l"]) and E.m_is_mem("payloadTruncated")(E.strip(E.strip(t)["r"])["r"]),
-                  "clen == payloadSeen - payloadTruncated")
+    got_all = E.m_cmp("==", E.m_is_ref("clen"),
+                      E.M(lambda t: E.strip(t).get("op") == "-" and E.m_is_mem("payloadSeen")(E.strip(t)["l"]) and E.m_is_mem("payloadTruncated")(E.strip(t)["r"]), "payloadSeen - payloadTruncated"))
     sets = ck.sites(fl, lambda ev: ev.get("e") == "asg" and E.m_is_ref("parsedWhole")(ev.get("lhs")) and E.strip(ev.get("rhs")).get("k") == "str", "parsedWhole = <reason>", 3)
     for s in sets:
         r = E.strip(s.ev["rhs"])["v"]
